@@ -1,8 +1,667 @@
-//! (engine stub)
-#[allow(unused_imports)]
-use crate::util::*;
+//! C16 / C15, spec -> impl and impl -> spec: CharacterData / Text operations on real nodes.
+//!
+//! `dom-chardata --in <TLC dump of MC_CharData> --out <trace>`: for every state (a data string) and every
+//! call of the dumped transition relation, build a real node holding that data in every *variant* that fits
+//! the specification kind, fire the call, and record what happened: outcome, returned value, data and length
+//! afterwards, the sibling pair after split_text, and - after every call that reports success - whether the
+//! document still serializes to text that parses back to the same content.  Then seeded random walks over
+//! the graph (several calls on one node).  Everything is judged by Trace_CharData.tla; the fast path here
+//! only decides which events need not be written (`--all` writes every event).
 
-pub fn main(sub: &str, _args: &[String]) -> i32 {
-    eprintln!("unknown subcommand {}", sub);
-    2
+use crate::util::*;
+use rand::rngs::StdRng;
+use rand::{Rng, SeedableRng};
+use serde_json::{json, Value as J};
+use std::collections::HashMap;
+use std::io::Write;
+use xml_dom::{
+    AsNode, Attr, AttrMut, CharacterData, CharacterDataMut, Document, DocumentMut, Element, ElementMut, Node,
+    NodeMut, ProcessingInstruction, ProcessingInstructionMut, TextMut, XmlDocument, XmlNode,
+};
+
+pub fn main(sub: &str, args: &[String]) -> i32 {
+    match sub {
+        "dom-chardata" => chardata(args),
+        "dom-factory" => factory(args),
+        "dom-chardata-rerun" => rerun(args),
+        _ => {
+            eprintln!("unknown subcommand {}", sub);
+            2
+        }
+    }
+}
+
+const MAXC: u64 = 2147483647;
+
+fn us(v: &J) -> usize {
+    let x = v.as_u64().unwrap_or(0);
+    if x >= MAXC {
+        usize::MAX
+    } else {
+        x as usize
+    }
+}
+
+fn err_name(e: &xml_dom::error::Error) -> String {
+    match e {
+        xml_dom::error::Error::Dom(d) => format!("{:?}", d),
+        xml_dom::error::Error::Info(i) => format!("Info:{:?}", i).chars().take(40).collect(),
+        xml_dom::error::Error::Parse(_) => "Parse".to_string(),
+    }
+}
+
+/// A real node under test.
+struct Subject {
+    doc: XmlDocument,
+    node: XmlNode,          // the character-data node (or the attribute / PI)
+    attr: Option<xml_dom::XmlAttr>, // for variant attrtext / attr: the owning attribute
+    variant: &'static str,
+}
+
+fn parse(text: &str, expanded: bool) -> Option<XmlDocument> {
+    let t = text.to_string();
+    match guarded(move || {
+        let ctx = xml_dom::Context::from_text_expanded(expanded);
+        match XmlDocument::from_raw_with_context(&t, ctx) {
+            Ok((rest, d)) if rest.is_empty() => Some(d),
+            _ => None,
+        }
+    }) {
+        Ok(d) => d,
+        Err(_) => None,
+    }
+}
+
+fn root(doc: &XmlDocument) -> Option<xml_dom::XmlElement> {
+    doc.document_element().ok()
+}
+
+/// Variants that can hold data of a specification kind.  "any" (C16) = every character-data kind.
+fn variants(kind: &str) -> Vec<&'static str> {
+    match kind {
+        "any" => vec![
+            "text/parsed", "text/created", "attrtext/parsed", "comment/parsed", "comment/created",
+            "cdata/parsed", "cdata/created", "merged/parsed",
+        ],
+        "text" => vec!["text/created"],
+        "attr" => vec!["attr/set"],
+        "comment" => vec!["comment/created"],
+        "cdata" => vec!["cdata/created"],
+        "pi" => vec!["pi/created"],
+        _ => vec![],
+    }
+}
+
+/// Build a subject holding `s`.  Err(reason) when this variant cannot hold `s` ("skip": not applicable,
+/// e.g. an empty parsed text node; "refused:<..>" / "panic:<..>": the implementation would not take it).
+fn build(variant: &'static str, s: &str) -> Result<Subject, String> {
+    let s_owned = s.to_string();
+    let r = guarded(move || -> Result<Subject, String> {
+        let s = s_owned.as_str();
+        match variant {
+            "text/parsed" | "merged/parsed" => {
+                if s.is_empty() {
+                    return Err("skip".into());
+                }
+                let doc = parse(&format!("<r>{}</r>", s), variant == "merged/parsed").ok_or("skip")?;
+                let e = root(&doc).ok_or("skip")?;
+                let node = e.first_child().ok_or("skip")?;
+                Ok(Subject { doc, node, attr: None, variant })
+            }
+            "attrtext/parsed" => {
+                if s.is_empty() {
+                    return Err("skip".into());
+                }
+                let doc = parse(&format!("<r x=\"{}\"/>", s), false).ok_or("skip")?;
+                let e = root(&doc).ok_or("skip")?;
+                let a = e.get_attribute_node("x").ok_or("skip")?;
+                let node = a.first_child().ok_or("skip")?;
+                Ok(Subject { doc, node, attr: Some(a), variant })
+            }
+            "comment/parsed" => {
+                let doc = parse(&format!("<r><!--{}--></r>", s), false).ok_or("skip")?;
+                let node = root(&doc).ok_or("skip")?.first_child().ok_or("skip")?;
+                Ok(Subject { doc, node, attr: None, variant })
+            }
+            "cdata/parsed" => {
+                let doc = parse(&format!("<r><![CDATA[{}]]></r>", s), false).ok_or("skip")?;
+                let node = root(&doc).ok_or("skip")?.first_child().ok_or("skip")?;
+                Ok(Subject { doc, node, attr: None, variant })
+            }
+            "text/created" | "comment/created" | "cdata/created" | "pi/created" => {
+                let doc = parse("<r/>", false).ok_or("skip")?;
+                let e = root(&doc).ok_or("skip")?;
+                let node = match variant {
+                    "text/created" => doc.create_text_node(s).as_node(),
+                    "comment/created" => doc.create_comment(s).as_node(),
+                    "cdata/created" => doc.create_cdata_section(s).as_node(),
+                    _ => doc
+                        .create_processing_instruction("t", s)
+                        .map_err(|e| format!("refused:{}", err_name(&e)))?
+                        .as_node(),
+                };
+                e.append_child(node.clone()).map_err(|e| format!("refused:{}", err_name(&e)))?;
+                Ok(Subject { doc, node, attr: None, variant })
+            }
+            "attr/set" => {
+                let doc = parse("<r/>", false).ok_or("skip")?;
+                let e = root(&doc).ok_or("skip")?;
+                e.set_attribute("x", s).map_err(|e| format!("refused:{}", err_name(&e)))?;
+                let a = e.get_attribute_node("x").ok_or("refused:lost")?;
+                Ok(Subject { doc, node: a.as_node(), attr: Some(a), variant })
+            }
+            _ => Err("skip".into()),
+        }
+    });
+    match r {
+        Ok(x) => x,
+        Err(p) => Err(format!("panic:{}", p.chars().take(60).collect::<String>())),
+    }
+}
+
+fn data_of(n: &XmlNode) -> Result<String, String> {
+    let n = n.clone();
+    guarded(move || match &n {
+        XmlNode::Text(t) => t.data().map_err(|e| err_name(&e)),
+        XmlNode::Comment(t) => t.data().map_err(|e| err_name(&e)),
+        XmlNode::CData(t) => t.data().map_err(|e| err_name(&e)),
+        XmlNode::ExpandedText(t) => t.data().map_err(|e| err_name(&e)),
+        XmlNode::PI(p) => Ok(p.data()),
+        XmlNode::Attribute(a) => a.value().map_err(|e| err_name(&e)),
+        _ => Err("kind".into()),
+    })
+    .unwrap_or_else(|p| Err(format!("panic:{}", p)))
+}
+
+fn len_of(n: &XmlNode) -> i64 {
+    let n = n.clone();
+    guarded(move || match &n {
+        XmlNode::Text(t) => t.length() as i64,
+        XmlNode::Comment(t) => t.length() as i64,
+        XmlNode::CData(t) => t.length() as i64,
+        XmlNode::ExpandedText(t) => t.length() as i64,
+        XmlNode::PI(p) => p.data().chars().count() as i64,
+        XmlNode::Attribute(a) => a.value().map(|v| v.chars().count() as i64).unwrap_or(-1),
+        _ => -1,
+    })
+    .unwrap_or(-2)
+}
+
+/// Content signature of the document element: attributes (sorted) and children with maximal runs of
+/// character data (text, CDATA, references) merged - comparable between a live raw-view document and a
+/// re-parsed one.
+fn signature(doc: &XmlDocument) -> Result<J, String> {
+    let doc = doc.clone();
+    guarded(move || -> Result<J, String> {
+        let e = root(&doc).ok_or("no root")?;
+        let mut attrs: Vec<(String, String)> = vec![];
+        if let Some(m) = e.as_node().attributes() {
+            for a in m.iter() {
+                attrs.push((a.name(), a.value().map_err(|e| err_name(&e))?));
+            }
+        }
+        attrs.sort();
+        let mut kids: Vec<J> = vec![];
+        let mut run: Option<String> = None;
+        for c in e.child_nodes().iter() {
+            let chars = match &c {
+                XmlNode::Text(t) => Some(t.data().map_err(|e| err_name(&e))?),
+                XmlNode::CData(t) => Some(t.data().map_err(|e| err_name(&e))?),
+                XmlNode::ExpandedText(t) => Some(t.data().map_err(|e| err_name(&e))?),
+                XmlNode::EntityReference(r) => Some(r.node_value().map_err(|e| err_name(&e))?.unwrap_or_default()),
+                _ => None,
+            };
+            match chars {
+                Some(s) => {
+                    run = Some(run.unwrap_or_default() + &s);
+                }
+                None => {
+                    if let Some(r) = run.take() {
+                        if !r.is_empty() {
+                            kids.push(json!(["chars", string_to_cps(&r)]));
+                        }
+                    }
+                    match &c {
+                        XmlNode::Comment(t) => kids.push(json!(["comment", string_to_cps(&t.data().map_err(|e| err_name(&e))?)])),
+                        XmlNode::PI(p) => kids.push(json!(["pi", string_to_cps(&p.target()), string_to_cps(&p.data())])),
+                        XmlNode::Element(x) => kids.push(json!(["elem", string_to_cps(&x.tag_name())])),
+                        other => kids.push(json!(["other", format!("{:?}", other.node_type())])),
+                    }
+                }
+            }
+        }
+        if let Some(r) = run.take() {
+            if !r.is_empty() {
+                kids.push(json!(["chars", string_to_cps(&r)]));
+            }
+        }
+        Ok(json!({"attrs": attrs.iter().map(|(n, v)| json!([string_to_cps(n), string_to_cps(v)])).collect::<Vec<_>>(), "kids": kids}))
+    })
+    .unwrap_or_else(|p| Err(format!("panic:{}", p)))
+}
+
+/// print -> parse -> signature
+fn reparse(doc: &XmlDocument) -> J {
+    let d = doc.clone();
+    let text = match guarded(move || d.to_string()) {
+        Ok(t) => t,
+        Err(p) => return json!({"ok": false, "why": format!("print panicked: {}", p)}),
+    };
+    match parse(&text, true) {
+        None => json!({"ok": false, "why": "serialization does not parse", "text": text}),
+        Some(d2) => match signature(&d2) {
+            Ok(s) => json!({"ok": true, "sig": s, "text": text}),
+            Err(e) => json!({"ok": false, "why": e, "text": text}),
+        },
+    }
+}
+
+fn exec(sub: &Subject, c: &J) -> (J, Option<XmlNode>) {
+    let op = c["op"].as_str().unwrap_or("").to_string();
+    let o = us(&c["o"]);
+    let cnt = us(&c["c"]);
+    let a = cps_to_string(&c["a"]);
+    let node = sub.node.clone();
+    let attr = sub.attr.clone();
+    let variant = sub.variant;
+    let r = guarded(move || -> Result<(J, Option<XmlNode>), xml_dom::error::Error> {
+        macro_rules! cd_read {
+            ($t:expr) => {
+                match op.as_str() {
+                    "length" => return Ok((json!({"ok": 1, "n": $t.length(), "ret": []}), None)),
+                    "data" => return Ok((json!({"ok": 1, "n": 0, "ret": string_to_cps(&$t.data()?)}), None)),
+                    "substring" => {
+                        return Ok((json!({"ok": 1, "n": 0, "ret": string_to_cps(&$t.substring_data(o, cnt)?)}), None))
+                    }
+                    _ => {}
+                }
+            };
+        }
+        macro_rules! cd_mut {
+            ($t:expr) => {
+                match op.as_str() {
+                    "append" => { $t.append_data(&a)?; return Ok((json!({"ok": 1, "n": 0, "ret": []}), None)); }
+                    "insert" => { $t.insert_data(o, &a)?; return Ok((json!({"ok": 1, "n": 0, "ret": []}), None)); }
+                    "delete" => { $t.delete_data(o, cnt)?; return Ok((json!({"ok": 1, "n": 0, "ret": []}), None)); }
+                    "replace" => { $t.replace_data(o, cnt, &a)?; return Ok((json!({"ok": 1, "n": 0, "ret": []}), None)); }
+                    "set" => { $t.set_data(&a)?; return Ok((json!({"ok": 1, "n": 0, "ret": []}), None)); }
+                    _ => {}
+                }
+            };
+        }
+        match &node {
+            XmlNode::Text(t) => {
+                cd_read!(t);
+                cd_mut!(t);
+                if op == "split" {
+                    let n2 = t.split_text(o)?;
+                    let d2 = n2.data()?;
+                    return Ok((json!({"ok": 1, "n": 0, "ret": string_to_cps(&d2)}), Some(n2.as_node())));
+                }
+            }
+            XmlNode::CData(t) => {
+                cd_read!(t);
+                cd_mut!(t);
+                if op == "split" {
+                    let n2 = t.split_text(o)?;
+                    let d2 = n2.data()?;
+                    return Ok((json!({"ok": 1, "n": 0, "ret": string_to_cps(&d2)}), Some(n2.as_node())));
+                }
+            }
+            XmlNode::Comment(t) => {
+                cd_read!(t);
+                cd_mut!(t);
+            }
+            XmlNode::ExpandedText(t) => {
+                cd_read!(t);
+            }
+            XmlNode::PI(p) => {
+                if op == "set" {
+                    p.set_data(&a)?;
+                    return Ok((json!({"ok": 1, "n": 0, "ret": []}), None));
+                }
+            }
+            XmlNode::Attribute(at) => {
+                if op == "set" {
+                    at.set_value(&a)?;
+                    return Ok((json!({"ok": 1, "n": 0, "ret": []}), None));
+                }
+                // the other operations act on the attribute's first text child
+                if let Some(XmlNode::Text(t)) = at.first_child() {
+                    cd_mut!(t);
+                }
+            }
+            _ => {}
+        }
+        let _ = (&attr, variant);
+        Ok((json!({"na": 1}), None))
+    });
+    match r {
+        Ok(Ok(x)) => x,
+        Ok(Err(e)) => (json!({"err": err_name(&e)}), None),
+        Err(p) => (json!({"panic": p.chars().take(80).collect::<String>()}), None),
+    }
+}
+
+/// Does the operation exist for this variant (the others are not part of that node's interface)?
+fn applicable(variant: &str, op: &str, first_child_is_text: bool) -> bool {
+    match variant {
+        "merged/parsed" => matches!(op, "length" | "data" | "substring"),
+        "comment/parsed" | "comment/created" => op != "split",
+        "pi/created" => op == "set",
+        "attr/set" => op == "set" || (first_child_is_text && op != "split" && !matches!(op, "length" | "data" | "substring")),
+        _ => true,
+    }
+}
+
+struct Graph {
+    kind: String,
+    states: Vec<(String, Vec<J>)>, // data string, edges
+    index: HashMap<String, usize>,
+}
+
+fn load(path: &str) -> Graph {
+    let mut g = Graph { kind: String::new(), states: vec![], index: HashMap::new() };
+    for_each_case(path, |v| {
+        if v.get("edges").is_some() {
+            g.kind = v["kind"].as_str().unwrap_or("any").to_string();
+            let s = cps_to_string(&v["s"]);
+            let mut edges = v["edges"].as_array().cloned().unwrap_or_default();
+            // TLC prints a set in its own order; make it deterministic
+            edges.sort_by_key(|e| e["call"].to_string());
+            g.index.insert(s.clone(), g.states.len());
+            g.states.push((s, edges));
+        }
+    });
+    g
+}
+
+struct Rec<'a> {
+    out: Box<dyn Write + 'a>,
+    all: bool,
+    events: usize,
+    written: usize,
+    reparses: usize,
+}
+
+impl<'a> Rec<'a> {
+    /// one call on a subject; returns the data afterwards (None: unobservable)
+    fn step(&mut self, kind: &str, sub: &Subject, edge: &J, hist: &[J], reparse_on: bool) -> Option<String> {
+        let call = &edge["call"];
+        let pre = data_of(&sub.node);
+        let (outc, newnode) = exec(sub, call);
+        if outc.get("na").is_some() {
+            return pre.ok();
+        }
+        self.events += 1;
+        let post = data_of(&sub.node);
+        let len = len_of(&sub.node);
+        let is_mut = !matches!(call["op"].as_str().unwrap_or(""), "length" | "data" | "substring");
+        // after split: the two siblings as the parent lists them
+        let mut sib = json!(0);
+        if let Some(n2) = &newnode {
+            let me = sub.node.id();
+            let parent_kids: Vec<XmlNode> = match (&sub.attr, sub.variant) {
+                (Some(a), "attrtext/parsed") => a.child_nodes().iter().collect(),
+                _ => root(&sub.doc).map(|e| e.child_nodes().iter().collect()).unwrap_or_default(),
+            };
+            let pos = parent_kids.iter().position(|k| k.id() == me);
+            let next_is_new = pos.and_then(|p| parent_kids.get(p + 1)).map(|k| k.id() == n2.id()).unwrap_or(false);
+            let n2parent = guarded(|| n2.parent_node().map(|p| p.id())).unwrap_or(None);
+            let myparent = guarded(|| sub.node.parent_node().map(|p| p.id())).unwrap_or(None);
+            sib = json!({"adjacent": next_is_new, "listed": pos.is_some(),
+                         "same_parent": n2parent.is_some() && n2parent == myparent,
+                         "count": parent_kids.len()});
+        }
+        let mut ev = json!({"event": "cd", "kind": kind, "variant": sub.variant,
+            "pre": pre.as_ref().map(|s| string_to_cps(s)).unwrap_or(json!([])),
+            "readable": pre.is_ok() && post.is_ok(),
+            "call": call, "out": outc,
+            "post": post.as_ref().map(|s| string_to_cps(s)).unwrap_or(json!([])),
+            "len": len, "sib": sib, "hist": hist});
+        let mut ideal = false;
+        // fast path: the DOM result exactly, nothing else to look at
+        let dom = &edge["dom"];
+        if let (Ok(p0), Ok(p1)) = (&pre, &post) {
+            if dom.get("err").is_some() {
+                ideal = outc.get("err").and_then(|e| e.as_str()) == Some("IndexSizeErr") && p0 == p1;
+            } else if outc.get("ok").is_some() {
+                let exp_data = cps_to_string(&dom["data"]);
+                let op = call["op"].as_str().unwrap_or("");
+                let ret_ok = match op {
+                    "length" => outc["n"] == dom["n"],
+                    "data" | "substring" | "split" => outc["ret"] == dom["ret"],
+                    _ => true,
+                };
+                ideal = *p1 == exp_data && ret_ok && len == exp_data.chars().count() as i64
+                    && (op != "split" || (sib["adjacent"] == true && sib["same_parent"] == true));
+            }
+        }
+        if is_mut && outc.get("ok").is_some() && reparse_on {
+            self.reparses += 1;
+            let live = signature(&sub.doc);
+            let re = reparse(&sub.doc);
+            let same = match (&live, re.get("sig")) {
+                (Ok(l), Some(r)) => l == r,
+                _ => false,
+            };
+            if !same {
+                ideal = false;
+            }
+            ev["live_sig"] = live.unwrap_or_else(|e| json!({"panic": e}));
+            ev["re"] = re;
+        }
+        if !ideal || self.all {
+            self.written += 1;
+            writeln!(self.out, "{}", ev).unwrap();
+        }
+        post.ok()
+    }
+}
+
+pub fn chardata(args: &[String]) -> i32 {
+    let inp = arg_value(args, "--in").unwrap_or("-");
+    let outp = arg_value(args, "--out").unwrap_or("-");
+    let walks: usize = arg_value(args, "--walks").and_then(|v| v.parse().ok()).unwrap_or(0);
+    let walk_len: usize = arg_value(args, "--len").and_then(|v| v.parse().ok()).unwrap_or(6);
+    let seed: u64 = arg_value(args, "--seed").and_then(|v| v.parse().ok()).unwrap_or(1);
+    let sample: usize = arg_value(args, "--sample").and_then(|v| v.parse().ok()).unwrap_or(0);
+    let g = load(inp);
+    let mut rec = Rec { out: open_out(outp), all: arg_flag(args, "--all"), events: 0, written: 0, reparses: 0 };
+    let mut unbuildable = 0usize;
+    let mut edges = 0usize;
+    let mut rng = StdRng::seed_from_u64(seed);
+    let vars = variants(&g.kind);
+    for (s, es) in &g.states {
+        for v in &vars {
+            // is this state buildable at all?
+            match build(v, s) {
+                Ok(_) => {}
+                Err(why) => {
+                    if why != "skip" {
+                        unbuildable += 1;
+                        writeln!(rec.out, "{}", json!({"event": "build", "kind": g.kind, "variant": v,
+                            "s": string_to_cps(s), "why": why})).unwrap();
+                        rec.written += 1;
+                    }
+                    continue;
+                }
+            }
+            for e in es {
+                let sub = match build(v, s) {
+                    Ok(x) => x,
+                    Err(_) => break,
+                };
+                let fct = matches!(sub.attr.as_ref().and_then(|a| a.first_child()), Some(XmlNode::Text(_)));
+                if !applicable(v, e["call"]["op"].as_str().unwrap_or(""), fct) {
+                    continue;
+                }
+                // every k-th event is written even if ideal, so that the judge sees ideal behaviour too
+                let force = sample > 0 && rng.gen_range(0..sample) == 0;
+                let was = rec.all;
+                rec.all = was || force;
+                rec.step(&g.kind, &sub, e, &[], true);
+                rec.all = was;
+                edges += 1;
+            }
+        }
+    }
+    // walks: several calls on one node
+    let mut walk_steps = 0usize;
+    for _ in 0..walks {
+        if g.states.is_empty() || vars.is_empty() {
+            break;
+        }
+        let v = vars[rng.gen_range(0..vars.len())];
+        let mut cur = rng.gen_range(0..g.states.len());
+        let sub = match build(v, &g.states[cur].0) {
+            Ok(x) => x,
+            Err(_) => continue,
+        };
+        let mut hist: Vec<J> = vec![json!({"build": v, "s": string_to_cps(&g.states[cur].0)})];
+        for _ in 0..walk_len {
+            let es = &g.states[cur].1;
+            let e = &es[rng.gen_range(0..es.len())];
+            let op = e["call"]["op"].as_str().unwrap_or("");
+            let fct = matches!(sub.attr.as_ref().and_then(|a| a.first_child()), Some(XmlNode::Text(_)));
+            if !applicable(v, op, fct) || op == "split" {
+                continue;
+            }
+            let after = rec.step(&g.kind, &sub, e, &hist, true);
+            hist.push(e["call"].clone());
+            walk_steps += 1;
+            match after.and_then(|d| g.index.get(&d).cloned()) {
+                Some(n) => cur = n,
+                None => break,
+            }
+        }
+    }
+    rec.out.flush().unwrap();
+    println!("{}", json!({"states": g.states.len(), "variants": vars.len(), "edges": edges, "events": rec.events,
+        "written": rec.written, "reparses": rec.reparses, "unbuildable": unbuildable, "walk_steps": walk_steps}));
+    0
+}
+
+// -------------------------------------------------------------------------------------------------
+// factories and name-taking setters (C13 / C15): names from MC_Name's REPLAY lines
+
+fn outcome<T>(r: Result<Result<T, xml_dom::error::Error>, String>) -> (J, Option<T>) {
+    match r {
+        Ok(Ok(v)) => (json!({"ok": 1}), Some(v)),
+        Ok(Err(e)) => (json!({"err": err_name(&e)}), None),
+        Err(p) => (json!({"panic": p.chars().take(80).collect::<String>()}), None),
+    }
+}
+
+pub fn factory(args: &[String]) -> i32 {
+    let inp = arg_value(args, "--in").unwrap_or("-");
+    let outp = arg_value(args, "--out").unwrap_or("-");
+    let mut out = open_out(outp);
+    let mut n = 0usize;
+    for_each_case(inp, |v| {
+        let s = cps_to_string(&v["s"]);
+        let mut ev = json!({"event": "factory", "s": v["s"]});
+        // create_element + append, then the document must still round-trip
+        for role in ["elem", "attr", "pi", "setattr"] {
+            let doc = match parse("<r/>", false) {
+                Some(d) => d,
+                None => return,
+            };
+            let e = root(&doc).unwrap();
+            let (d2, e2, s2) = (doc.clone(), e.clone(), s.clone());
+            let (o, attached) = match role {
+                "elem" => {
+                    let (o, x) = outcome(guarded(move || d2.create_element(&s2)));
+                    let att = x.map(|x| guarded(move || e2.append_child(x.as_node()).is_ok()).unwrap_or(false)).unwrap_or(false);
+                    (o, att)
+                }
+                "attr" => {
+                    let (o, x) = outcome(guarded(move || d2.create_attribute(&s2)));
+                    let att = x.map(|x| guarded(move || e2.set_attribute_node(x).is_ok()).unwrap_or(false)).unwrap_or(false);
+                    (o, att)
+                }
+                "pi" => {
+                    let (o, x) = outcome(guarded(move || d2.create_processing_instruction(&s2, "d")));
+                    let att = x.map(|x| guarded(move || e2.append_child(x.as_node()).is_ok()).unwrap_or(false)).unwrap_or(false);
+                    (o, att)
+                }
+                _ => {
+                    let (o, x) = outcome(guarded(move || e2.set_attribute(&s2, "v")));
+                    (o, x.is_some())
+                }
+            };
+            let mut r = json!({"out": o});
+            if attached {
+                r["live_sig"] = signature(&doc).unwrap_or_else(|e| json!({"panic": e}));
+                r["re"] = reparse(&doc);
+            }
+            ev[role] = r;
+        }
+        writeln!(out, "{}", ev).unwrap();
+        n += 1;
+    });
+    out.flush().unwrap();
+    println!("{}", json!({"names": n}));
+    0
+}
+
+fn static_variant(v: &str) -> &'static str {
+    for k in ["any", "text", "attr", "comment", "cdata", "pi"] {
+        for x in variants(k) {
+            if x == v {
+                return x;
+            }
+        }
+    }
+    "text/created"
+}
+
+/// Re-run one stored event (replay of a violation) and log it again.
+pub fn rerun(args: &[String]) -> i32 {
+    let inp = arg_value(args, "--in").unwrap_or("-");
+    let outp = arg_value(args, "--out").unwrap_or("-");
+    let text = std::fs::read_to_string(inp).unwrap_or_default();
+    let case: J = serde_json::from_str(&text).unwrap_or(J::Null);
+    match case["event"].as_str().unwrap_or("") {
+        "factory" => {
+            let tmp = format!("{}.in", outp);
+            std::fs::write(&tmp, format!("{}\n", json!({"s": case["s"]}))).unwrap();
+            let r = factory(&["--in".to_string(), tmp.clone(), "--out".to_string(), outp.to_string()]);
+            let _ = std::fs::remove_file(tmp);
+            r
+        }
+        "build" => {
+            let mut out = open_out(outp);
+            let v = static_variant(case["variant"].as_str().unwrap_or(""));
+            let s = cps_to_string(&case["s"]);
+            if let Err(why) = build(v, &s) {
+                if why != "skip" {
+                    writeln!(out, "{}", json!({"event": "build", "kind": case["kind"], "variant": v, "s": case["s"], "why": why})).unwrap();
+                }
+            }
+            0
+        }
+        _ => {
+            let mut rec = Rec { out: open_out(outp), all: true, events: 0, written: 0, reparses: 0 };
+            let v = static_variant(case["variant"].as_str().unwrap_or(""));
+            let hist = case["hist"].as_array().cloned().unwrap_or_default();
+            let kind = case["kind"].as_str().unwrap_or("any").to_string();
+            let start = if hist.is_empty() { cps_to_string(&case["pre"]) } else { cps_to_string(&hist[0]["s"]) };
+            let sub = match build(v, &start) {
+                Ok(x) => x,
+                Err(why) => {
+                    writeln!(rec.out, "{}", json!({"event": "build", "kind": kind, "variant": v, "s": string_to_cps(&start), "why": why})).unwrap();
+                    return 0;
+                }
+            };
+            for c in hist.iter().skip(1) {
+                let _ = exec(&sub, c);
+            }
+            // the expectation is recomputed by the trace specification; the fast path is not used here
+            let edge = json!({"call": case["call"], "dom": {"err": "recompute"}});
+            rec.step(&kind, &sub, &edge, &hist, true);
+            rec.out.flush().unwrap();
+            0
+        }
+    }
 }
